@@ -344,6 +344,10 @@ pub fn execute(scn: &MsgScn) -> RunReport {
     rep.nontrivial = ex.nontrivial.into_iter().collect();
     rep.states = ex.states.into_iter().collect();
     rep.add("rt.threads_spawned", ex.w.rt.spawned);
+    if ex.w.atomic_stats.0 > 0 {
+        rep.add("probe.atomic_operations_seen_in_jobs", ex.w.atomic_stats.0);
+        rep.add("fault.preempt_at_atomic_operation", ex.w.atomic_stats.1);
+    }
     rep.add("rt.steps", ex.w.rt.steps);
     rep.add("ops", ex.w.ops);
     ex.w.rt.shutdown();
